@@ -16,6 +16,13 @@ def spec_table():
     return t
 
 
+def operand_ty(body, o):
+    """type of an operand that is a plain local or a constant (None for anything else)"""
+    if o['o'] in ('copy', 'move'):
+        return body.local_ty(o['place']['local']) if not o['place']['proj'] else None
+    return o.get('ty')
+
+
 def eval_region(facts, body, start, env, stop=None, special=None, depth=0):
     """symbolic evaluation of a straight-line region of MIR (gotos, asserts and calls to straight-line in-crate functions are
     followed; anything else ends the evaluation with None).  env: local -> term.  Returns env at `stop` (a block index reached
@@ -84,6 +91,14 @@ def eval_region(facts, body, start, env, stop=None, special=None, depth=0):
             # a straight-line helper of the crate (e.g. a `const fn` holding the byte step): evaluate it on the argument terms
             fnj = t['func']['fn']
             cb = facts.bodies.get(fnj.get('resolved') or fnj['name'])
+            dty = body.local_ty(t['dest']['local'])
+            if cb is None and fnj.get('trait') in ('std::convert::From', 'std::convert::Into') and len(t['args']) == 1 and dty.get('k') == 'int':
+                aty = operand_ty(body, t['args'][0])
+                if aty is not None and aty.get('k') == 'int' and not aty.get('signed') and not dty.get('signed') and aty.get('bits', 0) <= dty.get('bits', 0):
+                    # `u32::from(octet)`: the lossless widening an `as` cast between the same two types denotes
+                    env[t['dest']['local']] = ('cast', dty['s'], aty['s'], op(t['args'][0]))
+                    bb = t['target']
+                    continue
             if cb is None or cb.def_kind == 'Closure':
                 return None
             cenv = {i + 1: op(a) for i, a in enumerate(t['args'])}
@@ -354,7 +369,7 @@ def run(ck):
     # its panic sites (index < 256, shift amounts)
     ca = ck.analyse('crc::crc32::{closure#0}' if form == 'fold' else 'crc::crc32', {'kslots': 2})
     nn = ck.count_obligations(ca.obligations(), 'C12.R2')
-    ck.rule('C12.R2 panic obligations of the step (index < 256, shifts < 32)', nn, 3 if ck.profile == 'dev' else 1)   # release MIR carries no shift-overflow asserts
+    ck.panic_rule('C12.R2 panic obligations of the step (index < 256, shifts < 32)', nn, [ca], 2)
     # ---- R3: crc32 = data.iter().fold(crc, step)   (for the loop form the shape was established by loop_form above)
     ok3 = form == 'loop'
     if form == 'fold':
